@@ -1494,6 +1494,28 @@ def register_all(M):
     def m_map_new(it, args, callee):
         return SMap("map")
 
+    @reg("Default::default")
+    def m_trait_default(it, args, callee):
+        """`<T as Default>::default()` for the std types the executor models."""
+        c = callee.strip()
+        t = c[1:].split(" as ")[0].strip() if c.startswith("<") else ""
+        b = t.split("<")[0].split("::")[-1]
+        if b == "HashMap":
+            return SMap("map")
+        if b == "String":
+            return SString([])
+        if b == "Vec":
+            return SVec([])
+        if b == "bool":
+            return False
+        if b in ("u8", "u16", "u32", "u64", "usize", "i8", "i16", "i32", "i64", "isize", "char"):
+            return 0
+        if b == "Option":
+            return none()
+        if b == "PathBuf":
+            return Opaque("PathBuf", ())
+        raise Unsupported("no model for `%s`" % callee)
+
     @reg("RandomState::new")
     def m_random_state(it, args, callee):
         return Opaque("RandomState")
@@ -1691,7 +1713,14 @@ def register_all(M):
         dp = deref(pat) if isinstance(pat, Ref) else pat
         if isinstance(dp, FnItem) or (isinstance(dp, Agg) and dp.kind.startswith("closure:")) or callable(dp):
             return it.call_value(pat, [ch])      # a predicate pattern: FnMut(char) -> bool
-        return char_eq(ch, pat)
+        if isinstance(dp, (Slice, SVec)) or (isinstance(dp, Agg) and dp.kind == "array"):
+            sl = slice_of(dp)                     # a slice of chars: any of them
+            alts = [char_eq(ch, sl.items[k]) for k in range(sl.lo, sl.hi)]
+            if any(a is True for a in alts):
+                return True
+            alts = [a for a in alts if a is not False]
+            return simp(z3.Or(alts)) if alts else False
+        return char_eq(ch, dp)
 
     @reg("Option::unwrap_or")
     def m_unwrap_or(it, args, callee):
